@@ -275,6 +275,20 @@ func (f *fields) delAt(i int) bool {
 	copy(a[i:], a[i+1:])
 	a[len(a)-1] = nil
 	f.a = a[:len(a)-1]
+
+	// elements moved down by one: keep their recorded index in sync
+	for j := i; j < len(f.a); j++ {
+		ctx := f.a[j].Context()
+		if ctx.field != fmt.Sprintf("%d", j+1) {
+			continue
+		}
+		ctx.field = fmt.Sprintf("%d", j)
+		if sub, ok := f.a[j].(cfgSub); ok {
+			sub.c.ctx = ctx
+		} else {
+			f.a[j].SetContext(ctx)
+		}
+	}
 	return true
 }
 
